@@ -136,37 +136,124 @@ func c09routing(c *engine.Ctx, p *engine.Prog) {
 				continue
 			}
 			objArg := engine.ObjOf(info, kcArg(site, 0))
-			var own, foreign []c09upd
+			wantSign := 1
+			if in.op == token.SUB_ASSIGN {
+				wantSign = -1
+			}
+			// sign of an expression relative to the delta variable: +1 for delta, -1 for -delta, 0 otherwise
+			signOf := func(e ast.Expr) int {
+				e = ast.Unparen(e)
+				if id, isID := e.(*ast.Ident); isID && info.ObjectOf(id) == delta {
+					return 1
+				}
+				if u, isU := e.(*ast.UnaryExpr); isU && u.Op == token.SUB {
+					if id, isID := ast.Unparen(u.X).(*ast.Ident); isID && info.ObjectOf(id) == delta {
+						return -1
+					}
+				}
+				return 0
+			}
+			type accrual struct {
+				pos    token.Pos
+				base   ast.Expr // realm credited, in f's terms
+				sign   int
+				facts  []kcFact // in f's terms
+				direct *engine.Site
+			}
+			var accs []accrual
 			bad := ""
-			var updBlocks = map[*cfg.Block]bool{}
+			updBlocks := map[*cfg.Block]bool{}
+			covered := false
 			for _, u := range c09sumDiffUpdates(f, sumDiff) {
 				if !g.Dominates(site, u.site) {
 					continue
 				}
-				if engine.ObjOf(info, u.rhs) != delta || !kcIsIdent(u.rhs) {
+				sg := signOf(u.rhs)
+				if sg == 0 {
 					bad = "sumDiff updated with `" + engine.ExprString(u.rhs) + "`, not the returned delta"
 					continue
 				}
-				if u.op != in.op {
-					bad = "sumDiff updated with " + u.op.String() + " (expected " + in.op.String() + ")"
+				switch u.op {
+				case token.ADD_ASSIGN:
+				case token.SUB_ASSIGN:
+					sg = -sg
+				default:
+					bad = "sumDiff is overwritten"
 					continue
 				}
-				// ownership fact at the update
+				lhs := u.site.Node.(*ast.AssignStmt).Lhs[0].(*ast.SelectorExpr)
+				accs = append(accs, accrual{u.site.Pos(), lhs.X, sg, kcFacts(g, u.site), u.site})
+				updBlocks[u.site.Block] = true
+			}
+			// accrual delegated to a helper that receives the delta
+			for _, s2 := range f.Calls() {
+				if s2 == site || s2.Call == nil || !g.Dominates(site, s2) {
+					continue
+				}
+				callee, _ := s2.Callee.(*types.Func)
+				h := p.FnOf(callee)
+				if h == nil || h == f {
+					continue
+				}
+				passes := false
+				for _, a := range s2.Call.Args {
+					if signOf(a) != 0 {
+						passes = true
+					}
+				}
+				if !passes {
+					continue
+				}
+				kcSubstInfo = info
+				m := kcBindCall(h, s2.Call, nil)
+				hb := map[*cfg.Block]bool{}
+				for _, u := range c09sumDiffUpdates(h, sumDiff) {
+					kcSubstInfo = info
+					sg := signOf(kcSubst(u.rhs, m))
+					if sg == 0 {
+						bad = h.Name + " updates sumDiff with `" + engine.ExprString(u.rhs) + "`, not the delta it was given"
+						continue
+					}
+					switch u.op {
+					case token.ADD_ASSIGN:
+					case token.SUB_ASSIGN:
+						sg = -sg
+					default:
+						bad = "sumDiff is overwritten"
+						continue
+					}
+					lhs := u.site.Node.(*ast.AssignStmt).Lhs[0].(*ast.SelectorExpr)
+					var facts []kcFact
+					for _, ft := range kcFacts(h.Graph(), u.site) {
+						kcSubstInfo = info
+						facts = append(facts, kcFact{kcSubst(ft.Expr, m), ft.Val})
+					}
+					kcSubstInfo = info
+					accs = append(accs, accrual{u.site.Pos(), kcSubst(lhs.X, m), sg, facts, nil})
+					hb[u.site.Block] = true
+				}
+				// inside the helper every normal path performs one of the updates
+				hcov := len(hb) > 0
+				hg := h.Graph()
+				for _, ex := range kcNormalExits(h) {
+					if !hb[ex.Block] && hg.Reach(hg.CFG.Blocks[0], ex.Block, hb) {
+						hcov = false
+					}
+				}
+				if hcov && kcMustFollow(f, site, s2) {
+					covered = true
+				}
+			}
+			var own, foreign int
+			for _, a := range accs {
 				var eq, neq bool
 				var oidObj types.Object
-				for _, ft := range kcFacts(g, u.site) {
+				for _, ft := range a.facts {
 					x, y, op, okc := kcCmp(ft)
-					if !okc {
+					if !okc || !kcSelOf(info, y, recv, "ID") {
 						continue
 					}
-					if kcSelOf(info, y, recv, "ID") {
-						// x is <oid>.PkgID
-					} else if kcSelOf(info, x, recv, "ID") {
-						x, y = y, x
-					} else {
-						continue
-					}
-					xs, isSel := x.(*ast.SelectorExpr)
+					xs, isSel := ast.Unparen(kcResolve(f, x)).(*ast.SelectorExpr)
 					if !isSel || xs.Sel.Name != "PkgID" || !kcIsIdent(xs.X) {
 						continue
 					}
@@ -178,50 +265,52 @@ func c09routing(c *engine.Ctx, p *engine.Prog) {
 						neq = true
 					}
 				}
-				// oid must be <objArg>.GetObjectID()
 				oidOK := false
 				if oidObj != nil {
 					defs, okd := kcDefs(f, oidObj)
 					oidOK = okd && len(defs) > 0
 					for _, d := range defs {
-						call, isCall := ast.Unparen(d).(*ast.CallExpr)
-						if !isCall {
-							oidOK = false
-							continue
-						}
-						se, isSel := call.Fun.(*ast.SelectorExpr)
-						if !isSel || se.Sel.Name != "GetObjectID" || engine.ObjOf(info, se.X) != objArg || objArg == nil {
+						x, isM := kcMethodCallOn(d, "GetObjectID")
+						if !isM || engine.ObjOf(info, x) != objArg || objArg == nil {
 							oidOK = false
 						}
 					}
 				}
+				if a.sign != wantSign {
+					bad = "the size delta is applied with the wrong sign (" + in.callee + " must move sumDiff by " + itoa(wantSign) + "×delta)"
+					continue
+				}
+				baseObj := engine.ObjOf(info, a.base)
 				switch {
-				case eq && oidOK && u.base == recv:
-					own = append(own, u)
-					updBlocks[u.site.Block] = true
-				case neq && oidOK && u.base != recv && u.base != nil:
-					// base must be rlm.touchForeignRealm(store, oid.PkgID)
-					d := kcSingleDef(f, u.base)
-					call := kcIsCallTo(info, d, c09G+".(*Realm).touchForeignRealm")
+				case eq && oidOK && kcIsIdent(a.base) && baseObj == recv:
+					own++
+				case neq && oidOK && !(kcIsIdent(a.base) && baseObj == recv):
+					call := kcIsCallTo(info, kcResolve(f, a.base), c09G+".(*Realm).touchForeignRealm")
+					okF := false
 					if call != nil && len(call.Args) == 2 {
-						if xs, isSel := ast.Unparen(call.Args[1]).(*ast.SelectorExpr); isSel && xs.Sel.Name == "PkgID" && engine.ObjOf(info, xs.X) == oidObj {
-							foreign = append(foreign, u)
-							updBlocks[u.site.Block] = true
-							continue
+						if xs, isSel := ast.Unparen(kcResolve(f, call.Args[1])).(*ast.SelectorExpr); isSel && xs.Sel.Name == "PkgID" && engine.ObjOf(info, xs.X) == oidObj {
+							okF = true
 						}
 					}
-					bad = "foreign branch credits `" + engine.ExprString(u.site.Node.(*ast.AssignStmt).Lhs[0]) + "` which is not touchForeignRealm(store, oid.PkgID)"
+					if okF {
+						foreign++
+					} else {
+						bad = "foreign branch credits `" + engine.ExprString(a.base) + "` which is not touchForeignRealm(store, oid.PkgID)"
+					}
 				default:
-					bad = "update of `" + engine.ExprString(u.site.Node.(*ast.AssignStmt).Lhs[0]) + "` is not on the branch matching the owner test oid.PkgID == rlm.ID of the saved object"
+					bad = "update of `" + engine.ExprString(a.base) + ".sumDiff` is not on the branch matching the owner test oid.PkgID == rlm.ID of the saved object"
 				}
 			}
-			ok2 := bad == "" && len(own) == 1 && len(foreign) == 1
+			ok2 := bad == "" && own == 1 && foreign == 1
 			why := bad
 			if why == "" && !ok2 {
-				why = "expected exactly one own-realm and one foreign-realm sumDiff update fed by the delta (own " + itoa(len(own)) + ", foreign " + itoa(len(foreign)) + ")"
+				why = "expected exactly one own-realm and one foreign-realm sumDiff update fed by the delta (own " + itoa(own) + ", foreign " + itoa(foreign) + ")"
 			}
-			// every normal path after the call passes one of the updates
-			if ok2 {
+			// every normal path after the call performs one of the updates
+			if ok2 && !covered {
+				if len(updBlocks) == 0 {
+					ok2, why = false, "a path from the store call to the function's exit skips the sumDiff update"
+				}
 				for _, ex := range kcNormalExits(f) {
 					for _, s := range site.Block.Succs {
 						if !updBlocks[site.Block] && g.Reach(s, ex.Block, updBlocks) {
@@ -240,9 +329,9 @@ func c09routing(c *engine.Ctx, p *engine.Prog) {
 	R := c09G + ".(*Realm)."
 	allowed := []string{R + "saveObject", R + "removeDeletedObjects", R + "FinalizeRealmTransaction"}
 	writers := engine.WriterSet(ws, nil)
-	extra := engine.SetDiff(writers, allowed)
-	c.CheckAt("who-may-write", c09G+".Realm.sumDiff", "-", len(extra) == 0, "writers: "+join(writers))
-	c.Floor("who-may-write sumDiff", len(ws), 6)
+	extra := kcUnacceptedCallers(p, writers, allowed)
+	c.CheckAt("who-may-write", c09G+".Realm.sumDiff", "-", len(extra) == 0, "writers: "+join(writers)+"; not in the confirmed table (nor private helpers of it): "+join(extra))
+	c.Floor("who-may-write sumDiff", len(ws), 4)
 }
 
 func c09drain(c *engine.Ctx, p *engine.Prog) {
@@ -258,7 +347,7 @@ func c09drain(c *engine.Ctx, p *engine.Prog) {
 	rd := p.RefsTo(func(o types.Object) bool { v, ok := o.(*types.Var); return ok && v.Origin() == sumDiff })
 	readers := engine.CallerSet(rd)
 	R := c09G + ".(*Realm)."
-	extra := engine.SetDiff(readers, []string{R + "saveObject", R + "removeDeletedObjects", R + "FinalizeRealmTransaction"})
+	extra := kcUnacceptedCallers(p, readers, []string{R + "saveObject", R + "removeDeletedObjects", R + "FinalizeRealmTransaction"})
 	c.CheckAt("diff-drain", "sumDiff referenced only by save/remove/finalize", "-", len(extra) == 0, "referrers: "+join(readers))
 
 	// each reset X.sumDiff = 0 is immediately preceded by realmDiffs[X.Path] += X.sumDiff
@@ -385,7 +474,7 @@ func c09drain(c *engine.Ctx, p *engine.Prog) {
 	// touchedForeignRealms: inserted only by touchForeignRealm
 	if tf := p.Field(c09G + ".Realm.touchedForeignRealms"); tf != nil {
 		ws := engine.WriterSet(p.FieldWrites(tf), nil)
-		ex := engine.SetDiff(ws, []string{R + "touchForeignRealm", R + "FinalizeRealmTransaction"})
+		ex := kcUnacceptedCallers(p, ws, []string{R + "touchForeignRealm", R + "FinalizeRealmTransaction"})
 		c.CheckAt("who-may-write", c09G+".Realm.touchedForeignRealms", "-", len(ex) == 0, "writers: "+join(ws))
 	} else {
 		c.Undecided("anchor", c09G+".Realm.touchedForeignRealms", "field not found")
@@ -394,7 +483,7 @@ func c09drain(c *engine.Ctx, p *engine.Prog) {
 	if rf := p.Field(c09G + ".defaultStore.realmStorageDiffs"); rf != nil {
 		D := c09G + ".(*defaultStore)."
 		ws := engine.WriterSet(p.FieldWrites(rf), nil)
-		ex := engine.SetDiff(ws, []string{c09G + ".NewStore", D + "BeginTransaction", D + "ClearObjectCache"})
+		ex := kcUnacceptedCallers(p, ws, []string{c09G + ".NewStore", D + "BeginTransaction", D + "ClearObjectCache"})
 		c.CheckAt("who-may-write", c09G+".defaultStore.realmStorageDiffs", "-", len(ex) == 0, "writers: "+join(ws))
 	} else {
 		c.Undecided("anchor", c09G+".defaultStore.realmStorageDiffs", "field not found")
@@ -419,7 +508,7 @@ func c09counters(c *engine.Ctx, p *engine.Prog) {
 			file := p.Fset.Position(w.Fn.Pos()).Filename
 			return !strings.HasSuffix(file, "pb3_gen.go")
 		})
-		extra := engine.SetDiff(writers, []string{V + "lockStorageDeposit", V + "refundStorageDeposit"})
+		extra := kcUnacceptedCallers(p, writers, []string{V + "lockStorageDeposit", V + "refundStorageDeposit"})
 		c.CheckAt("who-may-write", c09G+".Realm."+fld, "-", len(extra) == 0, "writers: "+join(writers))
 		c.Floor("who-may-write "+fld, len(ws), 2)
 	}
@@ -667,6 +756,31 @@ func c09settle(c *engine.Ctx, p *engine.Prog) {
 		rlmObj := engine.ObjOf(info, kcArg(r, 2))
 		uo := engine.ObjOf(info, unl)
 		ok, why := false, "no assignment depositUnlocked = int64(rlm.Deposit) under rlm.Storage == uint64(released)"
+		// candidate places where the refund becomes the whole deposit, with the
+		// gates under which that happens (all expressed in f's terms)
+		gateOK := func(gates []engine.Gate) bool {
+			hit := false
+			for _, gt := range gates {
+				if !gt.OnTrue {
+					continue
+				}
+				cj := engine.Conjuncts(gt.Cond, token.LAND)
+				mentions := false
+				for _, e := range cj {
+					if kcCmpAny(e, func(x, y ast.Expr, op token.Token) bool {
+						return op == token.EQL && kcSelOf(info, x, rlmObj, "Storage") && kcSameObj(info, y, rel)
+					}) {
+						mentions = true
+					}
+				}
+				if mentions && len(cj) == 1 {
+					hit = true
+				} else if mentions {
+					why = "full-release test is weakened: `" + engine.ExprString(gt.Cond) + "`"
+				}
+			}
+			return hit
+		}
 		if uo != nil {
 			engine.InspectBody(f, func(n ast.Node) {
 				as, isAs := n.(*ast.AssignStmt)
@@ -680,30 +794,50 @@ func c09settle(c *engine.Ctx, p *engine.Prog) {
 				if s == nil || !g.Dominates(s, r) && !g.ReachableAfter(s, r) {
 					return
 				}
-				for _, gt := range g.Gates(s) {
-					if !gt.OnTrue {
-						continue
-					}
-					cj := engine.Conjuncts(gt.Cond, token.LAND)
-					if len(cj) != 1 {
-						if strings.Contains(engine.ExprString(gt.Cond), "Storage") {
-							why = "full-release test is weakened: `" + engine.ExprString(gt.Cond) + "`"
-						}
-						continue
-					}
-					be, isB := ast.Unparen(cj[0]).(*ast.BinaryExpr)
-					if !isB || be.Op != token.EQL {
-						continue
-					}
-					x, y := ast.Unparen(be.X), ast.Unparen(be.Y)
-					if kcSelOf(info, y, rlmObj, "Storage") {
-						x, y = y, x
-					}
-					if kcSelOf(info, x, rlmObj, "Storage") && kcSameObj(info, y, rel) {
-						ok = true
-					}
+				if gateOK(kcGates(g, s)) {
+					ok = true
 				}
 			})
+			// or: the refund is computed by an in-program helper that returns the
+			// whole deposit exactly when all storage is released
+			if d := kcPlainDef(f, uo); d != nil && !ok {
+				if call, isCall := ast.Unparen(d).(*ast.CallExpr); isCall {
+					var callee *types.Func
+					switch fn := ast.Unparen(call.Fun).(type) {
+					case *ast.Ident:
+						callee, _ = info.Uses[fn].(*types.Func)
+					case *ast.SelectorExpr:
+						callee, _ = info.Uses[fn.Sel].(*types.Func)
+					}
+					if h := p.FnOf(callee); h != nil && h != f {
+						kcSubstInfo = info
+						m := kcBindCall(h, call, nil)
+						engine.InspectBody(h, func(n ast.Node) {
+							rs, isRet := n.(*ast.ReturnStmt)
+							if !isRet || len(rs.Results) != 1 {
+								return
+							}
+							kcSubstInfo = info
+							val := kcSubst(rs.Results[0], m)
+							if !kcSelOf(info, kcStripConv(info, val), rlmObj, "Deposit") {
+								return
+							}
+							st := h.SiteOf(rs)
+							if st == nil {
+								return
+							}
+							var gates []engine.Gate
+							for _, gt := range kcGates(h.Graph(), st) {
+								kcSubstInfo = info
+								gates = append(gates, engine.Gate{Cond: kcSubst(gt.Cond, m), OnTrue: gt.OnTrue, Block: gt.Block})
+							}
+							if gateOK(gates) {
+								ok = true
+							}
+						})
+					}
+				}
+			}
 		}
 		kcAt(c, p, "full-release", f.Name+" releasing all storage refunds the whole deposit", r.Pos(), ok, why)
 		// released == -diff of this realm
